@@ -374,18 +374,29 @@ func (g *GcsEmu) handleGcsUpdateMetadataRequest(ctx context.Context, baseUrl Htt
 			return err
 		}
 
-		// Update via json decode.
+		// Update via json decode, applied to a private deep copy: the object
+		// handed out by the store may share maps and slices with the stored
+		// record (and with copies of it), which a failed or concurrent patch
+		// must never touch.
 		metagen := obj.Metageneration
-		err = json.NewDecoder(r.Body).Decode(&obj)
+		patched := &storage.Object{}
+		buf, err := json.Marshal(obj)
+		if err == nil {
+			err = json.Unmarshal(buf, patched)
+		}
+		if err != nil {
+			return fmt.Errorf("failed to copy attrs of %s/%s: %w", bucket, filename, err)
+		}
+		err = json.NewDecoder(r.Body).Decode(&patched)
 		if err != nil {
 			return fmtErrorfCode(http.StatusBadRequest, "failed to parse request: %w", err)
 		}
-		if obj == nil {
+		if patched == nil {
 			// a body of `null` resets the pointer
 			return fmtErrorfCode(http.StatusBadRequest, "failed to parse request: empty metadata")
 		}
 
-		if err := g.store.UpdateMeta(bucket, filename, obj, metagen+1); err != nil {
+		if err := g.store.UpdateMeta(bucket, filename, patched, metagen+1); err != nil {
 			return fmt.Errorf("failed to update attrs of %s/%s: %w", bucket, filename, err)
 		}
 
